@@ -378,8 +378,10 @@ def run(ctx, ck):
     GEN = r'^taper%d\(self\.p1, self\.p2, self\.n_segments, self\.r(, .*)?\)$'
     one_segment_per_element('mininec.Wire.compute_taper1_segments', GEN % 1, [r'.*\[_k\]\[0\]$', r'.*\[_k\]\[1\]$'])
     one_segment_per_element('mininec.Wire.compute_taper2_segments', GEN % 2, [r'.*\[_k\]\[0\]$', r'.*\[_k\]\[1\]$'])
-    one_segment_per_element('mininec.Curve.compute_segments', r'^(enumerate\()?pairwise\(self\.segends\)\)?$',
-                            [r'.*pairwise\(self\.segends\)\[_k\]\[0\]$', r'.*pairwise\(self\.segends\)\[_k\]\[1\]$'])
+    # consecutive points of self.segends: (segends[k], segends[k + 1])
+    one_segment_per_element('mininec.Curve.compute_segments',
+                            r'^(enumerate\()?(pairwise\(self\.segends\)|zip\(self\.segends(\[:-1\])?, self\.segends\[1:\]\))\)?$',
+                            [r'^self\.segends\[_k\]$', r'^self\.segends\[(_k \+ 1|1 \+ _k)\]$'])
 
     # ---------------------------------------------------------------- D2 mirror
     t1 = m.func('taper.taper1')
